@@ -22,13 +22,14 @@ pub const PROPERTY: &str = "C13";
 /// attribution is counterfactual — a violation is attributed to a finding only if the same trace
 /// with that trigger neutralised shows no violation at all).
 const FINDINGS: &[&str] = &[
+    // narrow neutralisations first, the broad ones (which change what later events do) last
     "C13-rollback-below-first-block",
     "C13-signable-root-depends-on-import-depth",
-    "C13-stale-resume-point-after-failed-import",
-    "C13-target-above-tip-partial-range-root",
-    "C13-chunked-import-skips-range-roots",
-    "C13-intersect-skipped-without-agency",
     "C13-rollback-to-scan-start-ignored",
+    "C13-no-rescan-when-target-not-above-stored",
+    "C13-target-above-tip-partial-range-root",
+    "C13-stale-resume-point-after-failed-import",
+    "C13-chunked-import-skips-range-roots",
 ];
 
 fn neutralise(cfg: &Config, finding: &str) -> Option<Config> {
@@ -45,8 +46,8 @@ fn neutralise(cfg: &Config, finding: &str) -> Option<Config> {
                 n.chunk = None;
             }
         }
-        "C13-intersect-skipped-without-agency" if cfg.agency => c.agency = false,
         "C13-rollback-to-scan-start-ignored" if !cfg.neut_back_to_scan_start => c.neut_back_to_scan_start = true,
+        "C13-no-rescan-when-target-not-above-stored" if !cfg.neut_noop_on_stale => c.neut_noop_on_stale = true,
         _ => return None,
     }
     Some(c)
@@ -54,9 +55,10 @@ fn neutralise(cfg: &Config, finding: &str) -> Option<Config> {
 
 /// Execute the trace and attribute what it shows. A violation is attributed to a finding iff the
 /// same trace with (only, in addition to those already attributed) that finding's trigger
-/// neutralised no longer shows it: no violation at all, or the first violation moves to a later
-/// event. In the latter case the later violation is diagnosed in turn, with the neutralisation
-/// kept, so one run can show several findings; each gets its own entry.
+/// neutralised no longer shows it: no violation at all, or the first violation is now a later one
+/// (later event, or another clause at the same event). In the latter case that violation is
+/// diagnosed in turn, with the neutralisation kept, so one run can show several findings; each
+/// gets its own entry and every one of them must be attributed for the run to count as explained.
 fn diagnose(cfg: &Config, trace: &[Event], first: Option<Outcome>) -> Vec<Violation> {
     let mut cur = cfg.clone();
     let mut out = first.unwrap_or_else(|| sim::execute(&cur, trace, true));
@@ -69,7 +71,7 @@ fn diagnose(cfg: &Config, trace: &[Event], first: Option<Outcome>) -> Vec<Violat
             let o = sim::execute(&c, trace, true);
             let gone = match &o.violation {
                 None => true,
-                Some(v2) => v2.at_event > v.at_event,
+                Some(v2) => v2.at_event > v.at_event || (v2.at_event == v.at_event && v2.clause != v.clause),
             };
             if gone {
                 attributed = Some((f.to_string(), c, o));
@@ -181,6 +183,7 @@ impl ImportEngine {
         cfg.neut_restart_after_failure = rng.chance(0.7);
         cfg.clamp_targets = true;
         cfg.neut_back_to_scan_start = true;
+        cfg.neut_noop_on_stale = true;
         params = GenParams {
             steps: rng.range(6, 12) as usize,
             p_db_crash: 0.0,
@@ -217,6 +220,9 @@ impl ImportEngine {
         if !after_fork.is_empty() && rng.chance(0.8) {
             candidates = after_fork;
         }
+        // prefer imports that do real work (a no-op import has a handful of statements)
+        let most = candidates.iter().map(|i| base.import_costs[i].0).max().unwrap_or(0);
+        candidates.retain(|i| base.import_costs[i].0 * 3 >= most);
         let mut fired = 0u64;
         if !candidates.is_empty() {
             let j = *rng.pick(&candidates);
